@@ -79,6 +79,11 @@ def run(ctx, build):
                     init.append((nm, True))
             ops, log = [], []
             created = {}          # oracle bookkeeping: name -> ('idx', base) | ('res', dset, tool)
+            for nm, is_grp in init:
+                # a pre-existing group named <dataset>-<tool>_<digits> IS a results group of that pair
+                mm = re.fullmatch(r'([^-]+)-(.+)_([0-9]+)', nm)
+                if is_grp and mm:
+                    created[nm] = ('res', mm.group(1), mm.group(2), 'pre-existing')
             deleted_ever = set()
             n_ops = rng.randint(3, max_ops)
             bases = rng.sample(BASES, rng.randint(2, 5))
@@ -176,7 +181,7 @@ def run(ctx, build):
                     if found != want:
                         violate('hdf_utils.find_results_groups', 'any', 'lookup_not_exact', '(%s,%s) -> %s, created for the pair: %s' % (dn, tool, found, want), {'log': log})
                 else:
-                    res_groups = [n for n, v in created.items() if v[0] == 'res']
+                    res_groups = [n for n, v in created.items() if v[0] == 'res' and len(v) == 3]      # made by create_results_group (source recorded)
                     if not res_groups or where != 'default':
                         continue
                     gname = rng.choice(res_groups)
